@@ -417,31 +417,94 @@ pub fn ws_config(port: u16, socket_workers: usize, swarm_workers: usize, v6: boo
     c
 }
 
+/// Number of aquatic_ws instances that were found stuck at start-up in this process (known
+/// finding F17: with several socket and swarm workers the channel-mesh join sometimes never
+/// completes - listeners are open, but some worker never serves). Such an instance is left
+/// alone and another one is started.
+pub static WS_STUCK_STARTS: std::sync::atomic::AtomicU64 = std::sync::atomic::AtomicU64::new(0);
+
+/// Every swarm worker answers (a scrape whose hashes map to all of them is merged from all
+/// parts) on several fresh connections (which the kernel spreads over the socket workers).
+fn ws_serves(addr: SocketAddr, socket_workers: usize, swarm_workers: usize) -> bool {
+    let sw = swarm_workers.max(1);
+    let hashes: Vec<String> = (0..sw)
+        .map(|k| {
+            let b = (0x30u8..0x7f).find(|b| (*b as usize) % sw == k && *b != b'"' && *b != b'\\').unwrap_or(b'0');
+            format!("\"{}readinessprobe00000\"", b as char)
+        })
+        .collect();
+    let scrape = format!("{{\"action\":\"scrape\",\"info_hash\":[{}]}}", hashes.join(","));
+    let wait = Duration::from_secs(6);
+    let from: IpAddr = if addr.is_ipv4() { Ipv4Addr::LOCALHOST.into() } else { Ipv6Addr::LOCALHOST.into() };
+    for _ in 0..(5 * socket_workers + 3) {
+        let mut c = match WsClient::connect_with(from, addr, wait) {
+            Ok(c) => c,
+            Err(_) => return false,
+        };
+        if c.send_text(scrape.clone()).is_err() {
+            return false;
+        }
+        match c.recv(wait) {
+            Ok(Some(_)) => {}
+            _ => return false,
+        }
+    }
+    true
+}
+
 pub fn start_ws(make: impl FnOnce(u16) -> aquatic_ws::config::Config) -> Result<Tracker, String> {
-    let lease = lease_port()?;
-    let port = lease.port;
-    let config = make(port);
-    let v4 = config.network.address.is_ipv4();
-    let thread = std::thread::Builder::new()
-        .name(format!("ws-tracker-{port}"))
-        .spawn(move || aquatic_ws::run(config))
-        .map_err(|e| e.to_string())?;
-    let mut t = Tracker { port, thread: Some(thread), _lease: lease };
-    let start = Instant::now();
-    loop {
+    let mut make = Some(make);
+    let mut template: Option<aquatic_ws::config::Config> = None;
+    for attempt in 0..4 {
+        let lease = lease_port()?;
+        let port = lease.port;
+        let config = match (make.take(), &template) {
+            (Some(m), _) => {
+                let c = m(port);
+                template = Some(c.clone());
+                c
+            }
+            (None, Some(t)) => {
+                let mut c = t.clone();
+                c.network.address.set_port(port);
+                c
+            }
+            (None, None) => unreachable!(),
+        };
+        let (so, sw) = (config.socket_workers, config.swarm_workers);
+        let tls = config.network.enable_tls;
+        let v4 = config.network.address.is_ipv4();
+        let thread = std::thread::Builder::new()
+            .name(format!("ws-tracker-{port}"))
+            .spawn(move || aquatic_ws::run(config))
+            .map_err(|e| e.to_string())?;
+        let mut t = Tracker { port, thread: Some(thread), _lease: lease };
+        let start = Instant::now();
+        let addr: SocketAddr = if v4 { (Ipv4Addr::LOCALHOST, port).into() } else { (Ipv6Addr::LOCALHOST, port).into() };
+        loop {
+            if let Some(r) = t.result() {
+                return Err(format!("tracker exited during start-up: {r}"));
+            }
+            if TcpStream::connect_timeout(&addr, Duration::from_millis(200)).is_ok() {
+                break;
+            }
+            if start.elapsed() > Duration::from_secs(60) {
+                return Err("ws tracker did not accept a connection within 60 s".into());
+            }
+            std::thread::sleep(Duration::from_millis(20));
+        }
+        if tls || std::env::var("VCHECK_WS_NO_READINESS").is_ok() && { std::thread::sleep(Duration::from_millis(150)); true } || ws_serves(addr, so, sw) {
+            return Ok(t);
+        }
         if let Some(r) = t.result() {
             return Err(format!("tracker exited during start-up: {r}"));
         }
-        let addr: SocketAddr = if v4 { (Ipv4Addr::LOCALHOST, port).into() } else { (Ipv6Addr::LOCALHOST, port).into() };
-        if TcpStream::connect_timeout(&addr, Duration::from_millis(200)).is_ok() {
-            std::thread::sleep(Duration::from_millis(150));
-            return Ok(t);
-        }
-        if start.elapsed() > Duration::from_secs(60) {
-            return Err("ws tracker did not accept a connection within 60 s".into());
-        }
-        std::thread::sleep(Duration::from_millis(20));
+        // stuck: its threads cannot be stopped from here; keep its port leased and start another
+        WS_STUCK_STARTS.fetch_add(1, std::sync::atomic::Ordering::SeqCst);
+        eprintln!("aquatic_ws instance on port {port} ({so} socket / {sw} swarm workers) accepts connections but does not serve (attempt {attempt}); starting another instance");
+        std::mem::forget(t);
     }
+    Err("four aquatic_ws instances in a row were stuck at start-up".into())
 }
 
 pub struct WsClient {
@@ -451,16 +514,20 @@ pub struct WsClient {
 
 impl WsClient {
     pub fn connect(from: IpAddr, to: SocketAddr) -> Result<Self, String> {
+        Self::connect_with(from, to, reply_wait())
+    }
+
+    pub fn connect_with(from: IpAddr, to: SocketAddr, wait: Duration) -> Result<Self, String> {
         let domain = if to.is_ipv4() { socket2::Domain::IPV4 } else { socket2::Domain::IPV6 };
         let s = socket2::Socket::new(domain, socket2::Type::STREAM, Some(socket2::Protocol::TCP)).map_err(|e| e.to_string())?;
         if to.is_ipv6() {
             s.set_only_v6(false).ok();
         }
         s.bind(&SocketAddr::new(from, 0).into()).map_err(|e| format!("bind {from}: {e}"))?;
-        s.connect_timeout(&to.into(), reply_wait()).map_err(|e| format!("connect {to}: {e}"))?;
+        s.connect_timeout(&to.into(), wait).map_err(|e| format!("connect {to}: {e}"))?;
         let stream: TcpStream = s.into();
         stream.set_nodelay(true).ok();
-        stream.set_read_timeout(Some(reply_wait())).ok();
+        stream.set_read_timeout(Some(wait)).ok();
         let local = stream.local_addr().map_err(|e| e.to_string())?;
         let url = format!("ws://{}/", to);
         let (ws, _) = tungstenite::client::client(url.as_str(), stream).map_err(|e| format!("ws handshake: {e}"))?;
